@@ -1156,3 +1156,144 @@ pub fn valid(e: &E, blk: bool) -> bool {
         }
     }
 }
+
+// ---------------------------------------------------------------------------------------------
+// exhaustive enumeration: ALL ASTs with at most `max` nodes over a small alphabet
+//
+// alphabet: atoms x, y, 1 (first `na` of them); operators +++ (infixl 5), *** (infixr 5),
+// <<< (infixl 7) (first `no`); patterns x and `A y`; one field name `a`; one type `T = Int`.
+// Constructs: application (1 or 2 arguments), lambda, if, match (1 or 2 alternatives), infix,
+// projection, array (0..2), tuple (0, 2), record ({}, pun, field, field + base), let (value and
+// function binding), rec let, type, sequence (2 or 3 statements), do.  The generator's discipline
+// (`valid`) applies: sequences only where a layout block starts.
+
+pub struct Enumerator {
+    pub na: usize,
+    pub no: usize,
+    memo: std::collections::HashMap<(usize, bool), std::rc::Rc<Vec<E>>>,
+}
+
+impl Enumerator {
+    pub fn new(na: usize, no: usize) -> Enumerator {
+        Enumerator { na, no, memo: Default::default() }
+    }
+    fn ops(&self) -> Vec<usize> {
+        // indices into `table()`: +++ = 0, *** = 2, <<< = 6
+        [0usize, 2, 6][..self.no].to_vec()
+    }
+    /// all expressions with exactly `n` nodes; `blk`: a sequence may stand here
+    pub fn exact(&mut self, n: usize, blk: bool) -> std::rc::Rc<Vec<E>> {
+        if let Some(v) = self.memo.get(&(n, blk)) {
+            return v.clone();
+        }
+        let mut out: Vec<E> = vec![];
+        let bx = |e: &E| Box::new(e.clone());
+        if n == 1 {
+            let atoms = [E::Ident("x".into()), E::Ident("y".into()), E::Lit(Lit::Int(1))];
+            out.extend(atoms[..self.na].iter().cloned());
+            out.push(E::Array(vec![]));
+            out.push(E::Tuple(vec![]));
+            out.push(E::Record(vec![], None));
+            out.push(E::Record(vec![("a".into(), None)], None));
+        } else {
+            let m = n - 1;
+            let pats = [Pat::Ident("x".into()), Pat::Ctor("A".into(), vec![Pat::Ident("y".into())])];
+            // ---- one child
+            for b in self.exact(m, true).iter() {
+                out.push(E::Lambda(vec!["x".into()], bx(b)));
+            }
+            for b in self.exact(m, false).iter() {
+                out.push(E::Proj(bx(b), "a".into()));
+                out.push(E::Array(vec![b.clone()]));
+                out.push(E::Record(vec![("a".into(), Some(b.clone()))], None));
+            }
+            for b in self.exact(m, blk).iter() {
+                out.push(E::Type(vec![TyBind { name: "T".into(), params: vec![], body: TyBody::Alias(Ty::Con("Int".into())) }], bx(b)));
+            }
+            // ---- two children
+            for i in 1..m {
+                let j = m - i;
+                let (l_nb, r_nb) = (self.exact(i, false), self.exact(j, false));
+                let (l_b, r_b) = (self.exact(i, true), self.exact(j, true));
+                let r_in = self.exact(j, blk);
+                for a in l_nb.iter() {
+                    for b in r_nb.iter() {
+                        out.push(E::App(bx(a), vec![b.clone()]));
+                        for o in self.ops() {
+                            out.push(E::Infix(bx(a), o, bx(b)));
+                        }
+                        out.push(E::Array(vec![a.clone(), b.clone()]));
+                        out.push(E::Tuple(vec![a.clone(), b.clone()]));
+                        out.push(E::Record(vec![("a".into(), Some(a.clone()))], Some(bx(b))));
+                    }
+                    for b in r_b.iter() {
+                        for p in &pats {
+                            out.push(E::Match(bx(a), vec![(p.clone(), b.clone())]));
+                        }
+                    }
+                }
+                for a in l_b.iter() {
+                    for b in r_in.iter() {
+                        out.push(E::Let(Box::new(Bind { attr: None, pat: Pat::Ident("x".into()), args: vec![], typ: None, rhs: a.clone() }), bx(b)));
+                        out.push(E::Let(Box::new(Bind { attr: None, pat: Pat::Ident("f".into()), args: vec!["x".into()], typ: None, rhs: a.clone() }), bx(b)));
+                        out.push(E::Rec(vec![Bind { attr: None, pat: Pat::Ident("f".into()), args: vec!["x".into()], typ: None, rhs: a.clone() }], bx(b)));
+                        out.push(E::Do(Pat::Ident("x".into()), bx(a), bx(b)));
+                    }
+                }
+                if blk {
+                    // a two-statement sequence: the first statement is not a sequence and, when it
+                    // is a binding form, has no sequence as its body; the last one may be either
+                    for a in l_nb.iter() {
+                        for b in r_b.iter() {
+                            if !matches!(b, E::Block(_)) {
+                                out.push(E::Block(vec![a.clone(), b.clone()]));
+                            }
+                        }
+                    }
+                }
+            }
+            // ---- three children
+            if m >= 3 {
+                for i in 1..m - 1 {
+                    for j in 1..m - i {
+                        let k = m - i - j;
+                        let (c_nb, a_b, b_b) = (self.exact(i, false), self.exact(j, true), self.exact(k, true));
+                        let (a_nb, b_nb) = (self.exact(j, false), self.exact(k, false));
+                        for c in c_nb.iter() {
+                            for a in a_b.iter() {
+                                for b in b_b.iter() {
+                                    out.push(E::If(bx(c), bx(a), bx(b)));
+                                    out.push(E::Match(bx(c), vec![(pats[0].clone(), a.clone()), (pats[1].clone(), b.clone())]));
+                                }
+                            }
+                            for a in a_nb.iter() {
+                                for b in b_nb.iter() {
+                                    out.push(E::App(bx(c), vec![a.clone(), b.clone()]));
+                                }
+                                if blk {
+                                    for b in b_b.iter() {
+                                        if !matches!(b, E::Block(_)) {
+                                            out.push(E::Block(vec![c.clone(), a.clone(), b.clone()]));
+                                        }
+                                    }
+                                }
+                            }
+                        }
+                    }
+                }
+            }
+        }
+        debug_assert!(out.iter().all(|e| valid(e, blk)));
+        let v = std::rc::Rc::new(out);
+        self.memo.insert((n, blk), v.clone());
+        v
+    }
+    /// all programs (top level: a block may start) with at most `max` nodes
+    pub fn upto(&mut self, max: usize) -> Vec<E> {
+        let mut out = vec![];
+        for n in 1..=max {
+            out.extend(self.exact(n, true).iter().cloned());
+        }
+        out
+    }
+}
